@@ -201,6 +201,10 @@ def drive(a, prop, tier, seed, repo, t0, tag, rundir, worker, cleanup):
     plan = json.loads(r.stdout)
 
     if a.replay:
+        if not os.path.isfile(a.replay):
+            log("replay file not found:", a.replay)
+            return 2
+        a.replay = os.path.abspath(a.replay)
         d = os.path.join(rundir, "replay")
         rc = subprocess.run([worker, "-prop", prop, "-tier", tier, "-seed", str(seed), "-dir", d, "-replay", a.replay]).returncode
         res = {}
